@@ -85,14 +85,21 @@ def run_schedule(sched):
                 return q
         return 0
 
+    def free_mid(k):
+        """A message ID no request of this run uses (k distinguishes several)."""
+        return (sched.get("mid0", 0) + 0x8000 + k) & 0xFFFF
+
     def fire(trig):
         inject_rx(trig["rx"])
 
     def inject_rx(step):
         mid = step.get("mid")
         if isinstance(mid, dict):
-            base = reqs[mid["of"]]["msg"].mid if "of" in mid else reqs[mid["wrong"]]["msg"].mid
-            mid = base if "of" in mid else (base + mid.get("delta", 7)) & 0xFFFF
+            if "free" in mid:
+                mid = free_mid(mid["free"])
+            else:
+                base = reqs[mid["of"]]["msg"].mid if "of" in mid else reqs[mid["wrong"]]["msg"].mid
+                mid = base if "of" in mid else (base + mid.get("delta", 7)) & 0xFFFF
         tok = step.get("tok", b"")
         if isinstance(tok, dict):
             tok = reqs[tok["of"]]["msg"].token
